@@ -2551,6 +2551,43 @@ mutate(const Seed& seed, vf::Rng& rng)
       m.text = decorate_text(seed.text, rng);
       m.kinds = "kw-respell";
       m.same = true;
+      // image headers: 'image scaling factor[f] := x' may also be given as one factor per plane, '{x,...,x}' (InterfileHeader
+      // expands a single number to that list and rejects lists of another length); mixing both forms over the data sets of a
+      // dynamic / parametric image is legal and must give the same image
+      if ((seed.family == "image" || seed.family == "dynimage") && rng.coin(0.6))
+        {
+          std::vector<std::string> ls = split_lines(m.text);
+          long planes = 0;
+          for (auto& l : ls)
+            {
+              RefLine r = ref_split(l);
+              if (r.is_assignment && r.kw == "matrix size" && r.has_index && std::atoi(r.index_raw.c_str()) == 3)
+                planes = std::atol(r.value.c_str());
+            }
+          bool first = true, any = false;
+          if (planes >= 2 && planes <= 200)
+            for (auto& l : ls)
+              {
+                RefLine r = ref_split(l);
+                if (!(r.is_assignment && r.kw == "image scaling factor") || r.value.empty() || r.value[0] == '{')
+                  continue;
+                // always the first data set (the later ones then follow a complete list), the others at random
+                if (first || rng.coin(0.4))
+                  {
+                    std::string list = "{";
+                    for (long k = 0; k < planes; ++k)
+                      list += (k ? "," : "") + r.value;
+                    l = l.substr(0, r.value_begin) + " " + list + "}";
+                    any = true;
+                  }
+                first = false;
+              }
+          if (any)
+            {
+              m.text = join_lines(ls);
+              m.kinds = "kw-respell+scaling-factor-per-plane";
+            }
+        }
       return m;
     }
   if (u < 0.13 && !seed.trunc_data_file.empty())
@@ -2782,6 +2819,8 @@ run_mutate_case(Ctx& ctx)
   const Mutated m = mutate(seed, ctx.rng);
   if (m.kinds.find("continuation-at-eof") != std::string::npos)
     ctx.count("mutations_continuation_at_eof");
+  if (m.kinds.find("scaling-factor-per-plane") != std::string::npos)
+    ctx.count("equivalent_headers_scaling_factor_per_plane");
   Input in;
   in.seed = &seed;
   in.text = m.text;
